@@ -87,8 +87,16 @@ def run(tier):
         start = max(0, m * c - rnd.randrange(0, L0 + 3))
         second = [rnd.choice(allc) for _ in range(rnd.randrange(1, 6))] if k % 3 == 0 else None
         add(c, start, prog, "growing", second, internal=(k % 4 != 3))
+    # positions FAR into a library-managed buffer (2^20 .. 2^31): arithmetic on the position that is exact for small values only
+    # (a reciprocal instead of a division, a narrow intermediate type) shows at large positions; every chunk size class x positions
+    # just before / at / after a chunk boundary near each power of two
+    for c in (2, 3, 7, 8, 16, 17, 64, 100, 130, 255, 256, 1000, 4096, 4097, 32768, 46508, 65535, 65536, 100000):
+        for P in (2**16, 2**18, 2**20, 2**22, 2**24, 2**26, 2**28 + 5, 2**30, 2**31 - 200000) if full else (2**18, 2**20, 2**24, 2**26, 2**30, 2**31 - 200000):
+            for j in (rnd.randrange(1, 6), 0):
+                prog = [rnd.choice(allc) for _ in range(rnd.randrange(2, 9))]
+                add(c, (P // c) * c + c - j, prog, "far", internal=True)
     res = common.run_cases(binary, cases, tag="c14")
-    stats = {"grid_cases": 0, "random_cases": 0, "growing_cases": 0, "nonzero_counts": 0, "max_count": 0, "file_cases": 0, "second_calls": 0, "c_below_2": 0}
+    stats = {"grid_cases": 0, "random_cases": 0, "growing_cases": 0, "far_cases": 0, "nonzero_counts": 0, "max_count": 0, "file_cases": 0, "second_calls": 0, "c_below_2": 0}
     for (c, start, lines, hexes, lens, tag, second, use_file, shift), cmds, r in zip(meta, cases, res):
         v.count()
         stats[tag + "_cases"] += 1
@@ -134,7 +142,7 @@ def run(tier):
         if v.cov["evaluations"] % 1200 == 1:
             v.sample({"chunk": c, "start": start, "n_lines": len(lines), "count": expc, "tail": lines[-2:]})
     v.cov["rule"] = ("the C13 grid (every chunk size x position x encoded length) with counting instead of fitting, plus seeded programs x chunk sizes incl. 0, 1, -1, len, len+1, 10^6 x start offsets x a second counting "
-                     "call on the same instance x the file variant x (one case in four) an earlier counting call that failed after some boundary crossings; library-managed buffers with chunk sizes 6000..100000 and start offsets that put the first instructions across offset c or 2c (the mapping grows during the call); oracle: bytes == plain encoding, count == number of instructions with (pos mod c)+len > c at their final positions, count of the current call only, c<2 -> 0")
+                     "call on the same instance x the file variant x (one case in four) an earlier counting call that failed after some boundary crossings; positions far into a library-managed buffer (2^18..2^31, just before / at chunk boundaries, 19 chunk sizes 2..100000); library-managed buffers with chunk sizes 6000..100000 and start offsets that put the first instructions across offset c or 2c (the mapping grows during the call); oracle: bytes == plain encoding, count == number of instructions with (pos mod c)+len > c at their final positions, count of the current call only, c<2 -> 0")
     v.cov["exhaustive"] = True
     v.cov.update(stats)
     return v.finish(None, stats["nonzero_counts"] > 100, "too few non-zero counts observed: %r" % stats)
